@@ -97,9 +97,39 @@ def optNames (o : Option (List String)) : Json :=
   | none => .null
   | some l => toJson l
 
-def handle (j : Json) : Json :=
-  let r : Except String Json := do
+def portJson (p : Port) : Json :=
+  .arr #[toJson p.start, toJson p.size, .str p.name, .bool p.herald, toJson p.expected]
+
+def pairsIJson (l : List (Int × Int)) : Json := .arr (l.map fun p => Json.arr #[toJson p.1, toJson p.2]).toArray
+
+/-- `{"op": "names", "cs": n, "inp": [...], "outp": [...]}` -> the model of `in_port_names` / `out_port_names` on
+given port lists (null = IndexError) -/
+def handleNames (j : Json) : Except String Json := do
+  let cs ← natOf j "cs"
+  let inp ← (← arrOf j "inp").toList.mapM portOf
+  let outp ← (← arrOf j "outp").toList.mapM portOf
+  return Json.mkObj [("in_names", optNames (portNames cs inp)), ("out_names", optNames (portNames cs outp))]
+
+/-- `{"op": "resolve", ...}` -> the resolved mapping (or the error class), and for a dictionary the closed form:
+the pairs every item stands for -/
+def handleResolve (j : Json) : Except String Json := do
+  let fx : RFlags := ⟨← boolOf j "fix_name", ← boolOf j "fix_skip"⟩
+  let l ← sideOf (← j.getObjVal? "left")
+  let r ← sideOf (← j.getObjVal? "right")
+  let raw ← rawMapOf (← j.getObjVal? "map")
+  let closed : Json := match raw with
+    | .ofDict items => match allPairs fx l r items with
+      | .ok ps => Json.mkObj [("pairs", pairsIJson ps), ("dict", pairsIJson (dictOf ps)),
+                              ("types", .bool (typeChecks r items))]
+      | .error e => Json.mkObj [("err", .str e.name), ("types", .bool (typeChecks r items))]
+    | _ => .null
+  match resolve fx l r raw with
+  | .ok d => return Json.mkObj [("map", pairsIJson d), ("closed", closed)]
+  | .error e => return Json.mkObj [("err", .str e.name), ("closed", closed)]
+
+def handleCompose (j : Json) : Except String Json := do
     let fixName ← boolOf j "fix_name"
+    let fixSkip ← boolOf j "fix_skip"
     let fixPS ← boolOf j "fix_ps"
     let fixPorts ← boolOf j "fix_ports"
     let lj ← j.getObjVal? "left"
@@ -108,7 +138,7 @@ def handle (j : Json) : Json :=
     let r ← sideOf rj
     let raw ← rawMapOf (← j.getObjVal? "map")
     let keep ← boolOf j "keep_port"
-    match compose fixName fixPS fixPorts l r raw keep with
+    match compose ⟨fixName, fixSkip⟩ fixPS fixPorts l r raw keep with
     | .error e => return errJson e.name
     | .ok res =>
       let states ← (← arrOf j "states").toList.mapM natList
@@ -122,6 +152,11 @@ def handle (j : Json) : Json :=
       let left : Matrix (Fin n) (Fin n) GQ := embed n 0 (matOfRows l.cs ulRows)
       let u := composeMatV n res.first r.cs res.perm (!r.comp) (matOfRows r.cs urRows) left
       let rows := u.toArray.map (·.toArray)
+      -- the left mode every right-hand mode is read back from by the carried-over post-selection
+      let pull : Json := if r.comp then .null else
+        toJson ((List.range r.cs).map fun v => match res.inv with
+          | none => v + res.first
+          | some τ => applyPermFn τ 0 v + res.first)
       return Json.mkObj [
         ("map", pairsJson res.map), ("full", pairsJson res.full), ("min", toJson res.first),
         ("perm", match res.perm with | none => .null | some p => toJson p),
@@ -130,8 +165,19 @@ def handle (j : Json) : Json :=
         ("dets", .arr (res.dets.map fun d => match d with | none => Json.null | some s => .str s).toArray),
         ("in_names", optNames (portNames res.cs res.inp)),
         ("out_names", optNames (portNames res.cs res.outp)),
+        ("inp", .arr (res.inp.map portJson).toArray), ("outp", .arr (res.outp.map portJson).toArray),
+        ("pull", pull),
         ("ps", match res.ps with | none => .null | some p => psJson p),
         ("tt", tt), ("U", rowsToJson rows)]
+
+def handle (j : Json) : Json :=
+  let r : Except String Json :=
+    match j.getObjVal? "op" with
+    | .ok (.str "names") => handleNames j
+    | .ok (.str "resolve") => handleResolve j
+    | .ok (.str "compose") => handleCompose j
+    | .ok _ => .error "unknown op"
+    | .error _ => handleCompose j
   match r with
   | .ok out => out
   | .error e => errJson s!"protocol: {e}"
